@@ -424,8 +424,7 @@ impl Complement for AdjacencyMap {
     /// The time complexity is `O(v² log v)`, where `v` is the digraph's
     /// order.
     fn complement(&self) -> Self {
-        let order = self.order();
-        let vertices = (0..order).collect::<BTreeSet<_>>();
+        let vertices = self.arcs.keys().copied().collect::<BTreeSet<_>>();
 
         Self {
             arcs: self
@@ -452,20 +451,19 @@ impl Converse for AdjacencyMap {
     /// The time complexity is `O(v² log v)`, where `v` is the digraph's
     /// order.
     fn converse(&self) -> Self {
-        let order = self.order();
-        let mut vec = vec![BTreeSet::new(); order];
+        let mut arcs = self
+            .arcs
+            .keys()
+            .map(|&u| (u, BTreeSet::new()))
+            .collect::<BTreeMap<_, _>>();
 
         for (u, out_neighbors) in &self.arcs {
             for v in out_neighbors {
-                unsafe {
-                    let _ = vec.get_unchecked_mut(*v).insert(*u);
-                };
+                let _ = arcs.entry(*v).or_default().insert(*u);
             }
         }
 
-        Self {
-            arcs: vec.into_iter().enumerate().collect(),
-        }
+        Self { arcs }
     }
 }
 
@@ -877,11 +875,11 @@ impl IsSemicomplete for AdjacencyMap {
         let ptr = out_neighbors.as_ptr();
 
         unsafe {
-            for u in self.vertices() {
-                for v in self.vertices() {
+            for (i, u) in self.vertices().enumerate() {
+                for (j, v) in self.vertices().enumerate() {
                     if u != v
-                        && !(*ptr.add(u)).contains(&v)
-                        && !(*ptr.add(v)).contains(&u)
+                        && !(*ptr.add(i)).contains(&v)
+                        && !(*ptr.add(j)).contains(&u)
                     {
                         return false;
                     }
@@ -926,11 +924,11 @@ impl IsTournament for AdjacencyMap {
         let ptr = out_neighbors.as_ptr();
 
         unsafe {
-            for u in self.vertices() {
-                for v in self.vertices() {
+            for (i, u) in self.vertices().enumerate() {
+                for (j, v) in self.vertices().enumerate() {
                     if u != v
-                        && (*ptr.add(u)).contains(&v)
-                            == (*ptr.add(v)).contains(&u)
+                        && (*ptr.add(i)).contains(&v)
+                            == (*ptr.add(j)).contains(&u)
                     {
                         return false;
                     }
